@@ -440,6 +440,20 @@ func (s *Sim) finish(outcome string) {
 	close(s.doneCh)
 }
 
+// ArmPCT re-draws the priority change points of the PCT policy over the next `horizon` steps. A
+// workload calls it when its set-up is done, so that the few change points fall into the part of the
+// run where the concurrent tasks are alive (no effect under the other policies, or in replay).
+//
+//go:norace
+func (s *Sim) ArmPCT(horizon int64) {
+	if s.cfg.Policy != PolPCT || horizon <= 0 {
+		return
+	}
+	for k := 0; k < s.pctN; k++ {
+		s.pctPoints[k] = s.steps + 1 + s.prng.Int63n(horizon)
+	}
+}
+
 // Yield is a decision point at which the current task stays runnable.
 //
 //go:norace
